@@ -142,6 +142,35 @@ def _ev(e, env, hook):
             return getattr(b, e.func.attr)(*args)
         except Exception:
             return UNK
+    # list comprehension / generator over a constant sequence (one generator, name or tuple-of-names target)
+    if isinstance(e, (ast.ListComp, ast.GeneratorExp)) and len(e.generators) == 1:
+        g = e.generators[0]
+        seq = ev(g.iter, env, hook)
+        if seq is UNK or not isinstance(seq, (list, tuple)):
+            return UNK
+        out = []
+        for item in seq:
+            env2 = dict(env)
+            if isinstance(g.target, ast.Name):
+                env2[g.target.id] = item
+            elif isinstance(g.target, ast.Tuple) and all(isinstance(t, ast.Name) for t in g.target.elts) and isinstance(item, (tuple, list)) \
+                    and len(item) == len(g.target.elts):
+                for t, x in zip(g.target.elts, item):
+                    env2[t.id] = x
+            else:
+                return UNK
+            keep = True
+            for c in g.ifs:
+                v = ev(c, env2, hook)
+                if v is UNK:
+                    return UNK
+                keep = keep and bool(v)
+            if keep:
+                v = ev(e.elt, env2, hook)
+                if v is UNK:
+                    return UNK
+                out.append(v)
+        return out
     # scalar numpy functions modelled by the math module (the checker's own arithmetic on constants)
     if isinstance(e, ast.Call) and dotted_name(e.func) in NP_SCALAR and not e.keywords:
         args = [ev(a, env, hook) for a in e.args]
@@ -185,6 +214,16 @@ def run_block(stmts, env, hook=None, want_env=False):
         for st in stmts:
             if isinstance(st, ast.Assign) and len(st.targets) == 1 and isinstance(st.targets[0], ast.Name):
                 env[st.targets[0].id] = ev(st.value, env, hook)
+            elif isinstance(st, ast.Assign) and len(st.targets) == 1 and isinstance(st.targets[0], ast.Tuple) \
+                    and all(isinstance(t, ast.Name) for t in st.targets[0].elts):
+                v = ev(st.value, env, hook)
+                names = [t.id for t in st.targets[0].elts]
+                if v is UNK or not isinstance(v, (tuple, list)) or len(v) != len(names):
+                    for nm in names:
+                        env[nm] = UNK
+                else:
+                    for nm, x in zip(names, v):
+                        env[nm] = x
             elif isinstance(st, ast.If):
                 t = ev(st.test, env, hook)
                 if t is UNK:
